@@ -46,6 +46,9 @@ const barUnicodePartCount = len(barUnicode)
 
 // write a length of runes for a given bar parameters
 func barWriteRunes(w io.StringWriter, blockChar rune, val, maxVal, maxLen int64) {
+	if maxVal <= 0 {
+		return
+	}
 	if val > maxVal {
 		val = maxVal
 	}
